@@ -223,21 +223,25 @@ Proof. exact valid_le_received. Qed.
 Print Assumptions C12_valid_le_received.
 
 (* ---- the AsyncPool of device/src/u3v/async_read.rs (model/AsyncPool.v, proofs/P_C12p.v) -------------
-   For ALL submission plans of the device (which libusb_submit_transfer calls are refused, how and
-   when accepted transfers complete) and ALL sequences of submit / poll / pending / cancel_all /
-   drop / new operations: *)
+   For ALL device scripts - which libusb_submit_transfer calls are refused, how and when accepted
+   transfers complete, how many further event-handling rounds a cancellation takes, which
+   libusb_handle_events_locked calls fail and how (any finite list of return codes) - and ALL
+   sequences of submit / poll / pending / cancel_all / drop / new operations (and of further
+   event-handling results scripted in between).  `pool_run ... = Some (s, out, false)`: the
+   operations ran without hitting an unreachable!() (C12_pool_documented_codes_no_panic: none is hit
+   when statuses and error codes are ones libusb documents). *)
 
 (* every transfer in `pending` was accepted by libusb *)
-Theorem C12_pool_pending_accepted : forall pl ops s out b,
-  pool_run false (pinit pl) ops = Some (s, out, b) ->
+Theorem C12_pool_pending_accepted : forall pl evs ops s out,
+  pool_run false (pinit pl evs) ops = Some (s, out, false) ->
   forall q, p_pool s = Some q -> Forall accepted_by_libusb q.
 Proof. exact pool_pending_accepted. Qed.
 Print Assumptions C12_pool_pending_accepted.
 
 (* poll returns completions in submission order: what has been returned so far, followed by what
    is pending, is exactly the accepted transfers 0, 1, ..., k-1 in order *)
-Theorem C12_pool_poll_fifo : forall pl ops s out b,
-  pool_run false (pinit pl) ops = Some (s, out, b) ->
+Theorem C12_pool_poll_fifo : forall pl evs ops s out,
+  pool_run false (pinit pl evs) ops = Some (s, out, false) ->
   exists k, p_accepted s = Z.of_nat k /\ p_reaped s ++ map sl_no (pending_of s) = nums k.
 Proof. exact pool_poll_fifo. Qed.
 Print Assumptions C12_pool_poll_fifo.
@@ -247,27 +251,93 @@ Theorem C12_pool_refused_submit_unchanged : forall s q len code rest,
   p_plan s = PRefuse code :: rest ->
   let '(s', out) := submit false s q len in
   p_pool s' = Some q /\ p_accepted s' = p_accepted s /\ p_reaped s' = p_reaped s /\
-  p_completed s' = p_completed s /\ p_refused s' = p_refused s + 1 /\
+  p_completed s' = p_completed s /\ p_refused s' = p_refused s + 1 /\ p_freed s' = p_freed s /\
   out = match err_class code with Some c => [1; c] | None => [2] end.
 Proof. exact pool_refused_submit_unchanged. Qed.
 Print Assumptions C12_pool_refused_submit_unchanged.
 
-(* dropping the pool terminates: it waits for exactly the transfers in `pending`, all of which
-   libusb accepted and completes once cancelled, reaps them in order and leaves nothing behind *)
-Theorem C12_pool_drop_terminates : forall pl ops s out b q,
-  pool_run false (pinit pl) ops = Some (s, out, b) -> p_pool s = Some q ->
-  exists s', pool_drop s q = Some s' /\ p_pool s' = None /\ p_reaped s' = p_reaped s ++ map sl_no q /\
-             p_accepted s' = p_accepted s.
+(* a poll that does not return a completion - it timed out, event handling failed (INTERRUPTED, ...),
+   even the unreachable!() on an unknown code - pops nothing: `pending` keeps its transfers, their
+   order and its length, nothing is returned, nothing is freed *)
+Theorem C12_pool_failed_poll_keeps_pending : forall pl evs ops s out q ms s' r,
+  pool_run false (pinit pl evs) ops = Some (s, out, false) -> p_pool s = Some q ->
+  poll ms s q = (s', r) -> (forall o, r <> PReap o) ->
+  exists q', p_pool s' = Some q' /\ map sl_no q' = map sl_no q /\ length q' = length q /\
+             Forall accepted_by_libusb q' /\ p_reaped s' = p_reaped s /\ p_freed s' = p_freed s.
+Proof. exact pool_failed_poll_keeps_pending. Qed.
+Print Assumptions C12_pool_failed_poll_keeps_pending.
+
+(* dropping the pool, in any reachable state: the clean-up loop `while !is_empty() { poll(1 s).ok(); }`
+   ends (DHang = the fuel of the model's loop is used up), however many of its polls fail or time out;
+   and once it has returned every transfer that was pending has been reaped, in submission order -
+   no accepted transfer is left in flight - and none was freed while libusb still had it *)
+Theorem C12_pool_drop_terminates : forall pl evs ops s out q,
+  pool_run false (pinit pl evs) ops = Some (s, out, false) -> p_pool s = Some q ->
+  pool_drop s q <> DHang /\
+  (forall s', pool_drop s q = DRet s' ->
+     p_pool s' = None /\ p_reaped s' = p_reaped s ++ map sl_no q /\ p_accepted s' = p_accepted s /\ p_freed s' = 0).
 Proof. exact pool_drop_terminates. Qed.
 Print Assumptions C12_pool_drop_terminates.
 
+(* the bound: the loop of Drop runs at most (transfers pending) + (cancellation latencies of the
+   pending transfers, in event-handling rounds) + (failing event-handling calls still in the script)
+   times - with any fuel above that the model's loop gives the result of pool_drop, which is not DHang *)
+Theorem C12_pool_drop_rounds_bound : forall pl evs ops s out q fuel,
+  pool_run false (pinit pl evs) ops = Some (s, out, false) -> p_pool s = Some q ->
+  let q' := fst (cancel_all q) in
+  let s0 := add_notfound (set_pool s (Some q')) (snd (cancel_all q)) in
+  (length q + lat_sum q + failures (p_evs s) < fuel)%nat -> drain fuel s0 q' = pool_drop s q.
+Proof. exact pool_drop_rounds_bound. Qed.
+Print Assumptions C12_pool_drop_rounds_bound.
+
+(* inside one poll the wait loop of poll_completed makes at most (transfers in flight) + 1
+   event-handling calls: the fuel the model gives it is never used up *)
+Theorem C12_pool_poll_wait_fuel : forall fuel fuel' s q, (nfl q < fuel)%nat -> (nfl q < fuel')%nat ->
+  poll_wait fuel s q = poll_wait fuel' s q.
+Proof. exact poll_wait_fuel. Qed.
+Print Assumptions C12_pool_poll_wait_fuel.
+
 (* no operation sequence wedges (None = an operation that never returns) *)
-Theorem C12_pool_ops_terminate : forall pl ops, pool_run false (pinit pl) ops <> None.
+Theorem C12_pool_ops_terminate : forall pl evs ops, pool_run false (pinit pl evs) ops <> None.
 Proof. exact pool_ops_terminate. Qed.
 Print Assumptions C12_pool_ops_terminate.
 
+(* at no point of any operation sequence has a transfer been freed while libusb had it in flight *)
+Theorem C12_pool_never_frees_in_flight : forall pl evs ops s out,
+  pool_run false (pinit pl evs) ops = Some (s, out, false) -> p_freed s = 0.
+Proof. exact pool_never_frees_in_flight. Qed.
+Print Assumptions C12_pool_never_frees_in_flight.
+
+(* with transfer statuses and error codes libusb documents no unreachable!() is hit, by no operation
+   and not by the final drop, which returns with nothing freed in flight *)
+Theorem C12_pool_documented_codes_no_panic : forall pl evs ops s out b,
+  Forall plan_ok pl -> Forall ev_ok evs -> Forall op_ok ops ->
+  pool_run false (pinit pl evs) ops = Some (s, out, b) ->
+  b = false /\ forall q, p_pool s = Some q -> exists s', pool_drop s q = DRet s' /\ p_freed s' = 0.
+Proof. exact pool_documented_codes_no_panic. Qed.
+Print Assumptions C12_pool_documented_codes_no_panic.
+
 (* what these exclude: with the transfer pushed onto `pending` before libusb accepted it, one
    refused submission and the drop of the pool never returns *)
-Theorem C12_pool_push_first_wedges : pool_run true (pinit [PRefuse (-11)]) [(1, 16); (5, 0)] = None.
+Theorem C12_pool_push_first_wedges : pool_run true (pinit [PRefuse (-11)] []) [(1, 16); (5, 0)] = None.
 Proof. exact pool_push_first_wedges. Qed.
 Print Assumptions C12_pool_push_first_wedges.
+
+(* and: a clean-up that polls once per pending transfer (`for _ in 0..pending()`) instead of until
+   the pool is empty frees a transfer in flight after ONE interrupted event handling, where the
+   code's loop reaps it and frees nothing in flight *)
+Theorem C12_pool_rounds_variant_interrupted :
+  exists s q s1 s2, pool_run false (pinit [PAccept 0 8 1000000 0] [-10]) [(1, 16)] = Some (s, [0], false) /\
+    p_pool s = Some q /\ pool_drop_rounds s q = DRet s1 /\ p_freed s1 = 1 /\
+    pool_drop s q = DRet s2 /\ p_freed s2 = 0 /\ p_reaped s2 = [0].
+Proof. exact pool_rounds_variant_interrupted. Qed.
+Print Assumptions C12_pool_rounds_variant_interrupted.
+
+(* the same with cancellations that take two further event-handling rounds (each poll times out
+   once more than the variant waits for) *)
+Theorem C12_pool_rounds_variant_slow_cancel :
+  exists s q s1 s2, pool_run false (pinit [PAccept 0 8 1000000 2; PAccept 0 8 1000000 2] []) [(1, 16); (1, 16)] = Some (s, [0; 0], false) /\
+    p_pool s = Some q /\ pool_drop_rounds s q = DRet s1 /\ p_freed s1 = 2 /\
+    pool_drop s q = DRet s2 /\ p_freed s2 = 0 /\ p_reaped s2 = [0; 1].
+Proof. exact pool_rounds_variant_slow_cancel. Qed.
+Print Assumptions C12_pool_rounds_variant_slow_cancel.
